@@ -268,4 +268,37 @@ def jobs(tier):
         js.append(dict(name=f'H3e:supply_order:k{k}', fn='h_order', params=dict(k=k), cost=4 ** k))
     for var in ('ssmf80', 'negdisp60', 'perfreq_desc70'):
         js.append(dict(name=f'H3a:real_fiber_history:{var}:k3', fn='h_real_fiber_history', params=dict(variant=var, k=3), cost=20))
+    for ws in (False, True):
+        js.append(dict(name=f'H3f:fibre_coefficients:{"with" if ws else "no"}_slope', fn='h_fibre_coefficients', params=dict(with_slope=ws), cost=5))
     return js
+
+
+def h_fibre_coefficients(ctx, with_slope):
+    """real Fiber.alpha / beta2 / beta3 / chromatic_dispersion for symbolic loss coefficient, dispersion (and slope):
+    alpha = loss/(10 log10 e); beta2 = -(c/f)^2 D(f) / (2 pi c); accumulated CD at the reference frequency = D * L"""
+    from scipy.constants import c
+    symbolic_ctors(ctx)
+    loss = ctx.real('loss_coef_db_per_km', lo=0.1, hi=0.5)
+    disp = ctx.real('dispersion_s_per_m2', lo=-3e-5, hi=3e-5)
+    params = {'length': 80, 'length_units': 'km', 'loss_coef': loss, 'att_in': 0, 'con_in': 0, 'con_out': 0, 'dispersion': disp}
+    slope = None
+    if with_slope:
+        slope = ctx.real('dispersion_slope', lo=0, hi=100)
+        params['dispersion_slope'] = slope
+    _, els = build_elements([{'uid': 'f', 'type': 'Fiber', 'type_variety': 'SSMF', 'params': params}])
+    fiber = els['f']
+    fref = float(fiber.params.ref_frequency)
+    for f in (191.3e12, fref, 196.1e12):
+        a = fiber.alpha(np.array([f]))
+        a = a if not isinstance(a, np.ndarray) else a.reshape(-1)[0]
+        ctx.prove(f'alpha = loss_coef / (10 log10 e) at {f * 1e-12:.1f} THz', approx(a, loss * 1e-3 / (10 * math.log10(math.e)), 1e-12))
+        b2 = fiber.beta2(np.array([f]))
+        b2 = b2 if not isinstance(b2, np.ndarray) else b2.reshape(-1)[0]
+        if with_slope:
+            d_f = disp + slope * (c / f - c / fref)
+        else:
+            d_f = (f / fref) ** 2 * disp
+        ctx.prove(f'beta2 = -(c/f)^2 D(f) / (2 pi c) at {f * 1e-12:.1f} THz', approx(b2, -((c / f) ** 2 * d_f) / (2 * math.pi * c), 1e-12))
+    cd = fiber.chromatic_dispersion(fref)
+    cd = cd if not isinstance(cd, np.ndarray) else cd.reshape(-1)[0]
+    ctx.prove('accumulated CD at the reference frequency = dispersion x length', approx(cd, disp * 80e3, 1e-9))
